@@ -193,6 +193,24 @@ func frameMain(args []string) int {
 			if rnd.Intn(6) == 0 {
 				k = []byte{}
 			}
+			if i < len(kvLongKeys) {
+				// key lengths around the byte boundaries of the 2-byte length field
+				k = make([]byte, kvLongKeys[i])
+				rnd.Read(k)
+			}
+			if i < len(kvHugeKeys) {
+				// very long keys: too large to log byte by byte -- the header, the total length and the round trip are logged
+				hk := make([]byte, kvHugeKeys[i])
+				rnd.Read(hk)
+				hv := genItem(rnd, 12)
+				henc := nitro.KVToBytes(hk, hv)
+				hdk, hdv := nitro.KVFromBytes(henc)
+				hk2 := append(append([]byte(nil), hk[:len(hk)-1]...), hk[len(hk)-1]+1) // differs in the last key byte only
+				t.Emit(tr.Ev{"e": "KVL", "lk": len(hk), "lv": len(hv), "lenc": len(henc), "hdr": ints(henc[:2]),
+					"keyok": bytes.Equal(hdk, hk), "valok": bytes.Equal(hdv, hv), "keyinplace": bytes.Equal(henc[2:2+len(hk)], hk),
+					"cmpself": sign(nitro.CompareKV(henc, nitro.KVToBytes(hk, genItem(rnd, 5)))),
+					"cmplast": sign(nitro.CompareKV(henc, nitro.KVToBytes(hk2, hv))), "wantlast": sign(bytes.Compare(hk, hk2))})
+			}
 			v := genItem(rnd, 12)
 			if rnd.Intn(6) == 0 {
 				v = []byte{}
@@ -301,3 +319,7 @@ func hugeLens(n int, rnd *rand.Rand) []int {
 	}
 	return out
 }
+
+var kvLongKeys = []int{255, 256, 257}
+
+var kvHugeKeys = []int{32767, 32768, 65535}
